@@ -1,13 +1,20 @@
 (* Executable model of the leader's slice builder (definitions only):
      src/consensus/block_producer.rs   produce_slice_payload (the byte accounting of the receive loop),
-                                       shred_and_disseminate (the size precondition of Shredder::shred)
+                                       shred_and_disseminate (the size precondition of Shredder::shred),
+                                       apply_parent_ready
    A transaction is represented by the length of its payload (Transaction(Vec<u8>) is encoded as an 8-byte
    length followed by the bytes).  Real time is abstracted: the transactions that arrive before the slice's
    time budget expires are the input list; running out of the list is the time-out arm.
    [Rust]  buffer_space = MAX_DATA_PER_SLICE - parent_encoded_len - 8;  buffer starts with the 8-byte count;
-           after every transaction:  if buffer_space - buffer.len() < MAX_TRANSACTION_SIZE + 8 { break }
-   The subtraction is on usize with overflow checks on (the crate's release profile sets overflow-checks):
-   it panics as soon as the buffer has grown beyond buffer_space.  That is the explicit [PPanic] outcome.
+           per transaction:  if tx.0.len() > MAX_TRANSACTION_SIZE { continue }            (current tree)
+                             tx_count += 1; serialize;
+                             if buffer_space - buffer.len() < MAX_TRANSACTION_SIZE + 8 { break }
+   The subtraction is on usize with overflow checks on (the crate's release profile): it panics as soon as
+   the buffer has grown beyond buffer_space - the explicit [PPanic] outcome.
+   [drop_oversize]: the current tree ("fix: drop transactions above the size limit ...", 7f57b91) skips
+   transactions above the limit; the pinned tree accounted for every transaction ([drop_oversize = false]).
+   [same_slot_ok]: the current tree ("fix: switch to the ready parent also when it is another block of the same
+   slot", 8dab5dc) has no assertion in apply_parent_ready; the pinned tree asserted new_slot != parent_slot.
 
    MODELLED_FUNCTIONS: produce_slice_payload BlockProducer::shred_and_disseminate (size precondition)
      apply_parent_ready *)
@@ -21,64 +28,49 @@ Definition parent_len (has_parent : bool) : N := if has_parent then PARENT_ENC_S
 Definition buffer_space (has_parent : bool) : N := MAX_DATA_PER_SLICE - parent_len has_parent - 8.
 Definition tx_encoded (payload : N) : N := 8 + payload.
 
+(* [len] buffer length (incl. the 8-byte count), [count] = tx_count, [consumed] = transactions taken from the source *)
 Inductive pres :=
-| PPanic                       (* usize underflow in [buffer_space - buffer.len()] *)
-| PFull (len : N) (used : N)   (* loop left because no further maximal transaction fits; [used] transactions consumed *)
-| PTimeout (len : N).          (* time budget over (input exhausted) *)
+| PPanic                                  (* usize underflow in [buffer_space - buffer.len()] *)
+| PFull (len count consumed : N)          (* loop left because no further maximal transaction fits *)
+| PTimeout (len count consumed : N).      (* time budget over (input exhausted) *)
 
-Fixpoint produce (space len used : N) (txs : list N) : pres :=
+Fixpoint produce_gen (drop_oversize : bool) (space len count consumed : N) (txs : list N) : pres :=
   match txs with
-  | [] => PTimeout len
+  | [] => PTimeout len count consumed
   | p :: rest =>
-    let len' := len + tx_encoded p in
-    if space <? len' then PPanic
-    else if space - len' <? MAX_TRANSACTION_SIZE + 8 then PFull len' (used + 1)
-    else produce space len' (used + 1) rest
+    if drop_oversize && (MAX_TRANSACTION_SIZE <? p) then produce_gen drop_oversize space len count (consumed + 1) rest
+    else
+      let len' := len + tx_encoded p in
+      if space <? len' then PPanic
+      else if space - len' <? MAX_TRANSACTION_SIZE + 8 then PFull len' (count + 1) (consumed + 1)
+      else produce_gen drop_oversize space len' (count + 1) (consumed + 1) rest
   end.
 
-Definition produce_slice (has_parent : bool) (txs : list N) : pres := produce (buffer_space has_parent) 8 0 txs.
+Definition produce_slice_gen (drop_oversize has_parent : bool) (txs : list N) : pres :=
+  produce_gen drop_oversize (buffer_space has_parent) 8 0 0 txs.
+(* current tree / pinned tree *)
+Definition produce_slice := produce_slice_gen true.
+Definition produce_slice_pinned := produce_slice_gen false.
+
+(* the transactions that end up in the slice: those within the limit among the consumed ones *)
+Definition accepted (consumed : N) (txs : list N) : list N :=
+  filter (fun p => p <=? MAX_TRANSACTION_SIZE) (firstn (N.to_nat consumed) txs).
 
 (* the slice payload handed to the shredder is  parent ++ (8-byte length) ++ buffer *)
 Definition slice_payload_len (has_parent : bool) (len : N) : N := parent_len has_parent + 8 + len.
 (* Shredder::shred refuses (and shred_and_disseminate's expect panics) above MAX_DATA_PER_SLICE *)
 Definition shred_accepts (has_parent : bool) (len : N) : bool := slice_payload_len has_parent len <=? MAX_DATA_PER_SLICE.
 
-Definition pres_len (r : pres) : option N := match r with PPanic => None | PFull l _ | PTimeout l => Some l end.
-
-(* a whole block's worth of slices: the transaction stream is cut wherever a slice ends (full) - the time-outs
-   that also end slices are abstracted into [cuts]: a slice additionally ends after cuts[i] transactions *)
-Fixpoint drop (n : nat) (l : list N) : list N := match n, l with O, _ => l | S n', [] => [] | S n', _ :: t => drop n' t end.
-
-(* the proposed repair: transactions above the limit are dropped before they are accounted for *)
-Fixpoint produce_fixed (space len used : N) (txs : list N) : pres :=
-  match txs with
-  | [] => PTimeout len
-  | p :: rest =>
-    if MAX_TRANSACTION_SIZE <? p then produce_fixed space len used rest
-    else
-      let len' := len + tx_encoded p in
-      if space <? len' then PPanic
-      else if space - len' <? MAX_TRANSACTION_SIZE + 8 then PFull len' (used + 1)
-      else produce_fixed space len' (used + 1) rest
-  end.
-Definition produce_slice_fixed (has_parent : bool) (txs : list N) : pres := produce_fixed (buffer_space has_parent) 8 0 txs.
-
-(* every phase at which a slice may begin inside a stream (a time-out can end a slice anywhere) *)
-Fixpoint suffixes (l : list N) : list (list N) := match l with [] => [[]] | _ :: t => l :: suffixes t end.
 Definition is_ppanic (r : pres) : bool := match r with PPanic => true | _ => false end.
-(* some slice start makes the builder panic / every slice start that receives the whole rest does *)
-Definition stream_may_panic (txs : list N) : bool :=
-  existsb (fun s => is_ppanic (produce_slice true s) || is_ppanic (produce_slice false s)) (suffixes txs).
 
 (* ---- apply_parent_ready: the ParentReady event that arrives while the leader is already producing
    optimistically on [optimistic] (the block of the previous slot it holds in its blockstore):
-     same hash -> keep;  other hash -> assert_ne!(new_slot, parent_slot); switch the parent.
+     same hash -> keep;  other hash -> (pinned tree: assert_ne!(new_slot, parent_slot);) switch the parent.
    A block id is (slot, hash). ---- *)
 Inductive apr := AprKeep | AprSwitch (p : N * N) | AprPanic.
-Definition apply_parent_ready (optimistic received : N * N) : apr :=
+Definition apply_parent_ready_gen (same_slot_ok : bool) (optimistic received : N * N) : apr :=
   if snd received =? snd optimistic then AprKeep
-  else if fst received =? fst optimistic then AprPanic
+  else if negb same_slot_ok && (fst received =? fst optimistic) then AprPanic
   else AprSwitch received.
-(* proposed repair: a different block is a different parent, whatever its slot *)
-Definition apply_parent_ready_fixed (optimistic received : N * N) : apr :=
-  if snd received =? snd optimistic then AprKeep else AprSwitch received.
+Definition apply_parent_ready := apply_parent_ready_gen true.
+Definition apply_parent_ready_pinned := apply_parent_ready_gen false.
